@@ -15,10 +15,13 @@
 (***************************************************************************)
 EXTENDS Decoder, TLC, SequencesExt
 
-CONSTANTS MaxLen
+CONSTANTS MaxLen, Full
 
-Alphabet == { 0, 2, 3, 65, 128, 135, 143, 152, 167, 168, 183, 191, 192, 198, 199,
+SmallAlphabet == { 0, 2, 3, 65, 128, 135, 143, 152, 167, 168, 183, 191, 192, 198, 199,
               225, 226, 230, 224, 208, 33, 127, 255 }
+
+(* Full = TRUE: every byte value (used with MaxLen = 2: all 65 793 strings of up to two bytes) *)
+Alphabet == IF Full THEN 0..255 ELSE SmallAlphabet
 
 VARIABLES src, st, nOut, first, steps, consumed
 vars == << src, st, nOut, first, steps, consumed >>
@@ -34,14 +37,14 @@ MetaHeads == { Magic \o << 2, 10, 0, 80, 80, 176, 176 >>,
                Magic \o << 4, 10, 0, 80, 80, 176, 176, 6, 2, 1, 30, 125 >>,
                << 137, 73, 86 >>, Magic, Magic \o << 1 >> }
 
-RECURSIVE Strings(_)
-Strings(n) == IF n = 0 THEN { << >> }
-              ELSE LET S == Strings(n - 1) IN
-                   S \cup { Append(s, a) : s \in { t \in S : Len(t) = n - 1 }, a \in Alphabet }
+RECURSIVE StringsOver(_, _)
+StringsOver(A, n) == IF n = 0 THEN { << >> }
+                     ELSE LET S == StringsOver(A, n - 1) IN
+                          S \cup { Append(s, a) : s \in { t \in S : Len(t) = n - 1 }, a \in A }
 
 Init ==
-  /\ src \in { Head5 \o w : w \in Strings(MaxLen) }
-            \cup { m \o w : m \in MetaHeads, w \in Strings(2) }
+  /\ src \in { Head5 \o w : w \in StringsOver(Alphabet, MaxLen) }
+            \cup { m \o w : m \in MetaHeads, w \in StringsOver(SmallAlphabet, 2) }
   /\ st = DInit /\ nOut = 0 /\ first = "" /\ steps = 0 /\ consumed = 0
 
 Sum(s) == FoldLeft(LAMBDA a, x : a + x, 0, s)
